@@ -144,7 +144,7 @@ class Validator:
         self.content_hash = content_hash
 
     def err(self, cls, path, off, msg):
-        self.errors.append({'class': cls, 'path': pathstr(path), 'offset': off, 'msg': msg})
+        self.errors.append({'class': cls, 'path': pathstr(path), 'path_hex': pathhex(path), 'offset': off, 'msg': msg})
 
     def fatal(self, cls, path, off, msg):
         self.err(cls, path, off, msg)
